@@ -335,3 +335,129 @@ def c18(ctx):
             'Lean model editAll; each case is also re-run hand-written in the edited order and must behave identically; '
             'non-trivial = has at least one directive; distinct = distinct (origin, directive) lists')
     return finish(ctx, 'proof', ob, dis, details, rule)
+
+
+# ---------------------------------------------------------------- stage correspondence helpers
+
+def dump_funcs(case, stage):
+    out = None; on = False; hdr = None
+    for l in case.lines:
+        if l.startswith('dump '):
+            on = l.split()[1] == stage
+            if on:
+                out = []; hdr = kv(l)
+        elif l.startswith('f ') and on:
+            out.append(kv(l))
+    return hdr, out
+
+
+def fmt_cp(f):
+    return '%s:%s:%s:%s/%s/%s/%s/%s' % (f['id'], f['class'], f['group'], f['ret'], f['out'], f['in'], f['recv'], f['byp'])
+
+
+def s3_compare(case):
+    """-> (status, detail): 'same' | 'diff' | 'skip'"""
+    m3 = next((l for l in case.mlines if l.startswith('m3 ')), None)
+    hdr, fs = dump_funcs(case, 'S3')
+    if m3 is None:
+        return 'skip', 'no model record'
+    mt = m3.split()
+    if mt[1] == 'err':
+        if fs is None and case.bind.split()[1:3] == ['err', mt[2]]:
+            return 'same', ''
+        return 'diff', 'model %s, impl %s' % (mt[2], ' '.join(case.bind.split()[:3]) if fs is None else 'assembled')
+    if fs is None:
+        return 'diff', 'model assembled, impl %s' % ' '.join(case.bind.split()[:3])
+    want = mt[3:]
+    got = [fmt_cp(f) for f in fs]
+    if want != got:
+        for i, (a, b) in enumerate(itertools.zip_longest(got, want, fillvalue='<none>')):
+            if a != b:
+                return 'diff', 'func %d: impl %s model %s' % (i, a, b)
+    if mt[2] != 'inv=%s' % hdr['invokeIndex']:
+        return 'diff', 'invokeIndex impl %s model %s' % (hdr['invokeIndex'], mt[2])
+    return 'same', ''
+
+
+# ---------------------------------------------------------------- C06 static vs per-invocation
+
+def stage_stats(ctx, cases, cmpfn, label, attribute=True):
+    st = collections.Counter()
+    for c in cases:
+        s, d = cmpfn(c)
+        st[s] += 1
+        if s == 'diff':
+            ctx.violations.append(('%s correspondence: %s (case %s)' % (label, d, c.key),
+                                   write_replay(ctx, 'case_%s.txt' % c.key, c.text()), False))
+    ctx.cov[label + '_compared'] = st['same'] + st['diff']
+    ctx.cov[label + '_diff'] = st['diff']
+    return st
+
+
+def call_counts_ok(case):
+    """static injectors (group static in the S7 dump) are called in at most one op of the case; everything
+    else that is included and reached is called per invocation (checked through the Spec trace equality)."""
+    statics = {f['id'] for f in case.s7_funcs() if f['group'] == 'static' and f['inc'] == '1'}
+    ops = []; cur = None
+    for l in case.lines:
+        if l.startswith('op '):
+            cur = []; ops.append(cur)
+        elif l.startswith('t call') and cur is not None:
+            cur.append(l.split()[2])
+    seen = collections.Counter()
+    for o in ops:
+        for i in set(o):
+            if i in statics:
+                seen[i] += 1
+        for i in statics:
+            if o.count(i) > 1:
+                return False, 'static injector %s called %d times in one op' % (i, o.count(i))
+    for i, n in seen.items():
+        if n > 1:
+            return False, 'static injector %s ran in %d different init/invoke calls' % (i, n)
+    return True, ''
+
+
+@prop('C06')
+def c06(ctx):
+    ob, dis, details = proof_obligations(ctx, 'C06')
+    cases = load_cases(ctx)
+    if cases is not None:
+        stage_stats(ctx, cases, s3_compare, 'S3')
+        n = 0; distinct = set(); feats = collections.Counter()
+        for c in cases:
+            if not c.ok or c.skip:
+                continue
+            n += 1
+            ok, d = call_counts_ok(c)
+            if not ok:
+                ctx.violations.append(('%s (case %s)' % (d, c.key), write_replay(ctx, 'case_%s.txt' % c.key, c.text()), True))
+            who, i = classify_diff(c.t, c.s)
+            if who is not None and who in ('C05',):
+                # a call that should not happen / is missing: attribute to C06 when it concerns a static injector
+                statics = {f['id'] for f in c.s7_funcs() if f['group'] == 'static'}
+                line = (c.t + ['<none>'])[min(i, len(c.t))]
+                if len(line.split()) > 1 and line.split()[1] in statics:
+                    ctx.violations.append(('static injector call differs from Spec at event %d (case %s)' % (i, c.key),
+                                           write_replay(ctx, 'case_%s.txt' % c.key, c.text()), True))
+            groups = collections.Counter(f['group'] for f in c.s7_funcs() if f['inc'] == '1')
+            if groups['static'] or 'cacheable' in c.features():
+                distinct.add(c.shape_key())
+            for f in c.features():
+                feats[f] += 1
+            if len(ctx.samples) < 3 and groups['static'] >= 2:
+                ctx.samples.append({'case': c.key, 'providers': [l for l in c.lines if l.startswith(('p ', 'invoke', 'init'))],
+                                    'included_groups': dict(groups)})
+        ctx.cov['programs'] = n
+        ctx.cov['evaluations'] = len(cases)
+        ctx.cov['traces_validated_against_impl'] = n
+        ctx.cov['distinct_nontrivial'] = len(distinct)
+        ctx.cov['generator_distribution'] = dict(feats)
+        if len(ctx.violations) > 5:
+            ctx.notes.append('%d violations; first 5 reported' % len(ctx.violations)); ctx.violations = ctx.violations[:5]
+    rule = ('registry theorems are re-proved over the table regenerated from characterize.go on this run; the list-level model '
+            'characterizeAll/assemble is compared with the implementation\'s S3 dump (class, group, five flow lists, order, invokeIndex) '
+            'on every generated chain; call counts of static injectors over init + several invocations are read from the real traces; '
+            'non-trivial = chain with a Cacheable-family provider; distinct = distinct provider lists')
+    ctx.assumptions.append('with an init function the static chain runs when init is called (documented contract)')
+    return finish(ctx, 'proof', ob, dis, details, rule)
